@@ -259,7 +259,8 @@ RECIPES = {
     },
     "C01": {
         "level": "exploration",
-        "mc": {"quick": [("MC_Corrupt", "MC_Corrupt_q", 12)], "thorough": [("MC_Corrupt", "MC_Corrupt_t", 14)]},
+        "mc": {"quick": [("MC_Corrupt", "MC_Corrupt_q", 12), ("MC_Hash", "MC_Gnu_q", 10), ("MC_Hash", "MC_Sysv_q", 6), ("MC_Links", "MC_Links_q", 4)],
+               "thorough": [("MC_Corrupt", "MC_Corrupt_t", 14), ("MC_Hash", "MC_Gnu_t", 14), ("MC_Hash", "MC_Sysv_t", 12), ("MC_Links", "MC_Links_t", 12)]},
         "families": {"quick": SLICE_FAMILIES_Q, "thorough": SLICE_FAMILIES_T},
         "reasons": ("panic", "died"),
         "tags": None,
